@@ -6,39 +6,6 @@ pub fn validate_addr_or_default(deps: &Deps, unvalidated: Option<Str>, default: 
     ensures r@ == (match unvalidated { Some(s) => if addr_valid(s@) { s@ } else { default@ }, None => default@ })
 { unimplemented!() }
 
-/// total amount of `denom` in a coin list
-pub open spec fn coin_sum(cs: Seq<Coin>, denom: Seq<char>) -> nat
-    decreases cs.len()
-{
-    if cs.len() == 0 { 0 } else { coin_sum(cs.drop_last(), denom) + (if cs.last().denom@ == denom { cs.last().amount@ } else { 0 }) }
-}
-pub open spec fn denoms_distinct(cs: Seq<Coin>) -> bool {
-    forall|i: int, j: int| 0 <= i < j < cs.len() ==> #[trigger] cs[i].denom@ != #[trigger] cs[j].denom@
-}
-pub open spec fn has_denom(cs: Seq<Coin>, denom: Seq<char>) -> bool {
-    exists|i: int| 0 <= i < cs.len() && #[trigger] cs[i].denom@ == denom
-}
-/// mantra-dex-std `aggregate_coins` (coin.rs): one coin per denom carrying the sum, sorted by denom; Err on u128 overflow
-#[verifier::external_body]
-pub fn aggregate_coins(coins: Vec<Coin>) -> (r: Result<Vec<Coin>, StdError>)
-    ensures match r {
-        Ok(v) => denoms_distinct(v@)
-            && (forall|d: Seq<char>| coin_sum(v@, d) == #[trigger] coin_sum(coins@, d))
-            && (forall|i: int| 0 <= i < v@.len() ==> has_denom(coins@, #[trigger] v@[i].denom@))
-            && (forall|k: int| 0 <= k < coins@.len() ==> has_denom(v@, #[trigger] coins@[k].denom@))
-            && (coins@.len() > 0 ==> v@.len() > 0) && v@.len() <= coins@.len(),
-        Err(_) => true,
-    }
-{ unimplemented!() }
-/// mantra-dex-std `add_coins` (coin.rs): adds each coin of `to_add` to the coin of the same denom (Err if absent), then drops zero coins
-#[verifier::external_body]
-pub fn add_coins(coins: Vec<Coin>, to_add: Vec<Coin>) -> (r: Result<Vec<Coin>, StdError>)
-    ensures match r {
-        Ok(v) => (forall|d: Seq<char>| #[trigger] coin_sum(v@, d) == coin_sum(coins@, d) + coin_sum(to_add@, d)),
-        Err(_) => true,
-    }
-{ unimplemented!() }
-
 // ---- token factory (mantra-dex-std::tokenfactory): the Any/Stargate encoding is replaced by a typed message (R14)
 pub uninterp spec fn is_factory_token_spec(denom: Seq<char>) -> bool;
 #[verifier::external_body]
